@@ -26,6 +26,7 @@ StepViol(c, k) ==
      ELSE DPViol(c.mode, c.bs, Len(c.signed), p, cl, Len(inn), inn = SubSeq(c.data, 1, Len(inn)), err, Markers(c, k), Good)
 Viol(c) == UNION {StepViol(c, k) : k \in 1..Len(c.steps)}
 Report == Viol(T[l]) = {} \/ PrintT(<<"VIOL", l, Viol(T[l])>>)
-Drift(c) == \E k \in 1..Len(c.steps) : ~(c.model[k].res = c.steps[k].res /\ c.model[k].inner = Len(c.steps[k].inner) /\ c.model[k].nw = Len(c.steps[k].w))
+\* (a walk copied whole by the pool bowl's Transpose has no step-by-step prediction)
+Drift(c) == c.via # "bowl-transpose" /\ \E k \in 1..Len(c.steps) : ~(c.model[k].res = c.steps[k].res /\ c.model[k].inner = Len(c.steps[k].inner) /\ c.model[k].nw = Len(c.steps[k].w))
 ReportDrift == ~Drift(T[l]) \/ PrintT(<<"DRIFT", l>>)
 =============================================================================
